@@ -94,8 +94,9 @@ pub fn c02(g: &mut Gen) {
         g.group(lines);
     }
     // huge universes with few ones (bounded by memory only through n / 2^w)
-    for n in [1u64 << 32, 1u64 << 63, MAXU - 1, MAXU] {
-        for m in [1u64, 2, 17, 64] {
+    // …including universes one or a few positions above a multiple of the bucket size (the last bucket is a sliver)
+    for n in [1u64 << 32, (1u64 << 40) + 1, (1u64 << 53) + 1, (1u64 << 53) - 1, (1u64 << 60) + 3, (1u64 << 62) + 12345, 1u64 << 63, (1u64 << 63) + 1, MAXU - 1, MAXU] {
+        for m in [1u64, 2, 4, 17, 64] {
             let mut vals: Vec<u64> = (0..m).map(|_| g.rng.below(n)).collect();
             if m >= 2 { vals[0] = 0; vals[1] = n - 1; }
             vals.sort(); vals.dedup();
